@@ -32,6 +32,9 @@ type Solver struct {
 	vscopes []map[string]bool // declared vars per scope
 	log     *bufio.Writer     // optional transcript
 	logf    *os.File
+	LogCap     int  // stop the transcript at the first path boundary after this many bytes (0: no cap)
+	logBytes   int
+	logStopped bool
 
 	// statistics
 	NQueries, NSat, NUnsat, NUnknown int
@@ -107,9 +110,10 @@ func (s *Solver) Close() {
 }
 
 func (s *Solver) send(line string) {
-	if s.log != nil {
+	if s.log != nil && !s.logStopped {
 		s.log.WriteString(line)
 		s.log.WriteString("\n")
+		s.logBytes += len(line) + 1
 	}
 	if s.keepTranscript && !strings.HasPrefix(line, "(check-sat") && !strings.HasPrefix(line, "(get-value") {
 		s.transcript = append(s.transcript, line)
@@ -138,6 +142,9 @@ func (s *Solver) Push() {
 func (s *Solver) Pop() {
 	s.send("(pop 1)")
 	s.scopes = s.scopes[:len(s.scopes)-1]
+	if len(s.scopes) == 1 && s.LogCap > 0 && s.logBytes > s.LogCap {
+		s.logStopped = true // the transcript ends at a path boundary: it stays a well-formed script
+	}
 	s.vscopes = s.vscopes[:len(s.vscopes)-1]
 	if n := len(s.tmarks); n > 0 {
 		if s.keepTranscript {
@@ -239,6 +246,9 @@ func (s *Solver) Check() SatResult {
 		}
 		break
 	}
+	if s.log != nil && !s.logStopped {
+		s.log.WriteString("; RESULT " + res.String() + "\n")
+	}
 	s.Time += time.Since(start)
 	if s.ByTag == nil {
 		s.ByTag = map[string]int{}
@@ -336,4 +346,95 @@ func parseValue(line string) (uint64, error) {
 // Script returns the current assertion stack as a standalone SMT-LIB2 script (without check-sat).
 func (s *Solver) Script() string {
 	return strings.Join(s.transcript, "\n")
+}
+
+
+// ---- cross-solver re-discharge ------------------------------------------------------------------------------
+
+// CrossResult: how another solver answered the check-sat queries of a recorded transcript.
+type CrossResult struct {
+	Solver                                string
+	Queries, Agree, Unknown, Disagree int
+	FirstDisagreement                     string
+	Err                                   string
+	Wall                                  time.Duration
+}
+
+// crossCheck replays a transcript written by Solver (with "; RESULT x" after every check-sat) on another solver and
+// compares the verdicts query by query.  get-value commands are dropped (models legitimately differ).
+func crossCheck(kind, logPath string, perQueryMs int, wallCap time.Duration) CrossResult {
+	cr := CrossResult{Solver: kind}
+	start := time.Now()
+	data, err := os.ReadFile(logPath)
+	if err != nil {
+		cr.Err = err.Error()
+		return cr
+	}
+	var script strings.Builder
+	var want []string
+	if kind == "cvc5" {
+		script.WriteString("(set-logic ALL)\n")
+		fmt.Fprintf(&script, "(set-option :tlimit-per %d)\n", perQueryMs)
+	} else {
+		fmt.Fprintf(&script, "(set-option :timeout %d)\n", perQueryMs)
+	}
+	for _, line := range strings.Split(string(data), "\n") {
+		switch {
+		case strings.HasPrefix(line, "; RESULT "):
+			want = append(want, strings.TrimPrefix(line, "; RESULT "))
+		case strings.HasPrefix(line, "(get-value"), strings.HasPrefix(line, "(set-option"), strings.HasPrefix(line, "(set-logic"), line == "":
+		default:
+			script.WriteString(line)
+			script.WriteString("\n")
+		}
+	}
+	script.WriteString("(exit)\n")
+	argv := solverArgv(kind)
+	cmd := exec.Command(argv[0], argv[1:]...)
+	cmd.Stdin = strings.NewReader(script.String())
+	outp, err := cmd.StdoutPipe()
+	if err != nil {
+		cr.Err = err.Error()
+		return cr
+	}
+	if err := cmd.Start(); err != nil {
+		cr.Err = err.Error()
+		return cr
+	}
+	timer := time.AfterFunc(wallCap, func() { cmd.Process.Kill() })
+	defer timer.Stop()
+	rd := bufio.NewReader(outp)
+	i := 0
+	for {
+		line, err := rd.ReadString('\n')
+		line = strings.TrimSpace(line)
+		if line == "sat" || line == "unsat" || line == "unknown" || strings.HasPrefix(line, "timeout") {
+			if strings.HasPrefix(line, "timeout") {
+				line = "unknown"
+			}
+			if i < len(want) {
+				cr.Queries++
+				switch {
+				case line == "unknown" || want[i] == "unknown":
+					cr.Unknown++
+				case line == want[i]:
+					cr.Agree++
+				default:
+					cr.Disagree++
+					if cr.FirstDisagreement == "" {
+						cr.FirstDisagreement = fmt.Sprintf("query %d of %s: z3 4.8.12 %s, %s %s", i+1, logPath, want[i], kind, line)
+					}
+				}
+			}
+			i++
+		} else if strings.HasPrefix(line, "(error") && cr.Err == "" {
+			cr.Err = line
+		}
+		if err != nil {
+			break
+		}
+	}
+	cmd.Wait()
+	cr.Wall = time.Since(start)
+	return cr
 }
